@@ -1,16 +1,68 @@
 """C04 -- prediction step is x' = f(x,u), P' = G P G^T + V M V^T."""
+import copy
+
 import numeric
+import scen
+from build import named
 
 
 REPO_ASSUME = ("thorough tier: every model / filter call the repository's own test-suite executes is recorded (pytest plugin, /repo untouched), "
                "projected against the Jacobian trees Derive.tla derives from the recorded definition, and validated by EKFCalls_Trace.tla")
 
 
+def _scale_sym(t, name, C):
+    op = t["op"]
+    if op == "sym":
+        return {"op": "mul", "l": {"op": "const", "val": [C, 1]}, "r": t} if t["name"] == name else t
+    if op == "const":
+        return t
+    if op in ("add", "sub", "mul", "div"):
+        return {"op": op, "l": _scale_sym(t["l"], name, C), "r": _scale_sym(t["r"], name, C)}
+    if op == "neg":
+        return {"op": "neg", "a": _scale_sym(t["a"], name, C)}
+    if op == "pow":
+        return {"op": "pow", "b": _scale_sym(t["b"], name, C), "n": t["n"]}
+    return {"op": "fn", "f": t["f"], "a": _scale_sym(t["a"], name, C)}
+
+
+def rescaled_control_twin(s, c_log2=20):
+    """the same behaviour with the first control measured in units 2^c_log2 times larger: the update expressions read C*u0,
+    the control values shrink by C and the noise variance by C^2 (to ~1e-12); the spec (InvRescaleControl, checked exactly by
+    TLC with C = 4) says every predicted state and covariance stays the same"""
+    d0 = s["def"]
+    if not d0["control"]:
+        return None
+    t = copy.deepcopy({k: v for k, v in s.items() if not k.startswith("_")})
+    d = t["def"]
+    C = 2 ** c_log2
+    c0 = sorted(d["control"])[0]
+    d["update"] = {n: _scale_sym(tr, c0, C) for n, tr in named(d["update"]).items()}
+    q = d["pnoise"][c0]
+    d["pnoise"][c0] = [q[0], q[1] * C * C]
+    for st in t["steps"]:
+        u = named(st.get("u") or {}) or {}
+        if c0 in u:
+            st["u"][c0] = [u[c0][0], u[c0][1] * C]
+        st.pop("V", None)          # the control Jacobian lives on the scaled axis
+        st.pop("Vt", None)
+    t["steps"] = [st for st in t["steps"] if st["act"] in ("SetEstimate", "Predict")]
+    t["_id"] = s.get("_id", "") + "-rescaled-control"
+    return t
+
+
+def _post(ctx, scns, results):
+    twins = [t for t in (rescaled_control_twin(s) for s in scns) if t is not None]
+    r = scen.replay_all(ctx, twins, cse_settings=(False,), force_ekf=True)
+    c = scen.record_results(ctx, r, key_prefix="rescaled-control:")
+    return {"rescaled_control_twins": len(twins), "rescaled_control": c}
+
+
 def run(ctx):
     return numeric.run_numeric(
-        ctx, sim=("MC_EKF", "MC_C04_sim.cfg"), sim_num_quick=96, sim_num_thorough=2400,
+        ctx, sim=("MC_EKF", "MC_C04_sim.cfg"), sim_num_quick=96, sim_num_thorough=2400, post=_post,
         rule="behaviour = definition + SetEstimate/Predict sequence; each Predict compares state and covariance by name with "
-             "TLC's exact G P G^T + V M V^T, checks that the inputs were not modified and that repeating the call is identical",
+             "TLC's exact G P G^T + V M V^T, checks that the inputs were not modified and that repeating the call is identical; "
+             "every behaviour with a control is replayed again with that control measured in units 2^20 times larger (noise variance ~1e-12)",
         scope="simulation: 1-3 states, 0-2 controls (distinct per-control noise), 0-2 calibrations, rational fragment, SPD integer covariances D + v v^T",
         assumptions=numeric.BASE_ASSUME + [REPO_ASSUME], repo_tests=True)
 
